@@ -138,7 +138,9 @@ def drive_env(name, tier, seed, hist_file=None):
     base = synthetic_multi_agent_env() if name == "SyntheticMultiAgent" else catalog.catalog(tier)[name]()
     rng = np.random.default_rng(seed * 17 + 3)
     events = []
-    multi = len(base.reward_spec.shape) > 0
+    # multi-agent = the rewards the environment actually emits are per-agent arrays (an environment that is already behind a
+    # MultiToSingleWrapper still DECLARES the inner per-agent reward spec)
+    multi = np.ndim(np.asarray(jax.jit(base.reset)(jax.random.PRNGKey(0))[1].reward)) > 0
     # ---- MultiToSingleWrapper itself ----
     if multi:
         # the last pair does NOT map an all-zero reward to 0 nor an all-one discount to 1 (a per-agent living cost, a
